@@ -1053,3 +1053,31 @@ func TestFinding118_AStructAndItsFirstFieldShareAnAddress(t *testing.T) {
 		t.Errorf("a pointer to the struct's first field: %q %v", buf.String(), err)
 	}
 }
+
+// Row 119: the caller's map was
+// kept as the lookup fallback; a key added after Fill was seen by {{ }}, :attr and Get and not by v-if.
+func TestFinding119_AMapIsNotKeptAsTheLookupFallback(t *testing.T) {
+	m := map[string]any{"a": "1"}
+	tpl := vuego.New().Fill(m)
+	m["late"] = "x"
+	var buf bytes.Buffer
+	if err := tpl.RenderString(context.Background(), &buf, `<p>[{{ late }}][{{ a }}]</p><b v-if="late">y</b><i :x="late"></i>`); err != nil {
+		t.Fatal(err)
+	}
+	out := buf.String()
+	sawText := strings.Contains(out, "[x]")
+	sawIf := strings.Contains(out, "<b>y</b>")
+	sawAttr := strings.Contains(out, `x="x"`)
+	if sawText != sawIf || sawText != sawAttr || (tpl.Get("late") != "") != sawText {
+		t.Errorf("the read positions disagree about a key that was added after Fill: text=%v v-if=%v attr=%v Get=%q in %q", sawText, sawIf, sawAttr, tpl.Get("late"), out)
+	}
+	if !strings.Contains(out, "[1]") {
+		t.Errorf("the value given to Fill is gone: %q", out)
+	}
+	// a struct keeps its field fallback
+	type page struct{ Title string }
+	buf.Reset()
+	if err := vuego.New().Fill(&page{Title: "T"}).RenderString(context.Background(), &buf, `<p>{{ Title }}</p>`); err != nil || !strings.Contains(buf.String(), "<p>T</p>") {
+		t.Errorf("struct field fallback: %q %v", buf.String(), err)
+	}
+}
